@@ -79,7 +79,7 @@ def main():
             rcC, outC = sh(f"go test -vet=off -count=1 ./{pkg}/", cwd=wt, env=goenv)
             for f in moved:
                 os.rename(os.path.join(wt, pkg, f + ".off"), os.path.join(wt, pkg, f))
-            full = "github.com/risor-io/risor/" + pkg
+            full = "github.com/risor-io/risor" + ("" if pkg in (".", "") else "/" + pkg)
             if rcC == 0 and full in broken:
                 broken.remove(full)
         meta["existing_tests_broken_by_patch"] = broken
